@@ -261,6 +261,38 @@ Lemma D_header_proto :
   /\ map pf_num (proto_msg "HeaderBBox") = [1; 2; 3; 4].
 Proof. vm_compute. repeat split; reflexivity. Qed.
 
+(* ---------- E. loop-body structure: found-flag rules, delta accumulation, value formulas ---------- *)
+Lemma E_found_dense : dense_rules = GenPbfCode.found_scanDenseNodes. Proof. reflexivity. Qed.
+Lemma E_found_ways : way_rules = GenPbfCode.found_scanWays. Proof. reflexivity. Qed.
+Lemma E_found_relations : rel_rules = GenPbfCode.found_scanRelations. Proof. reflexivity. Qed.
+
+Definition accum_view (t : list (Z * accum)) : list (Z * string) := map (fun r => (fst r, accum_name (snd r))) t.
+Lemma E_accum_dense : accum_view dense_accum = GenPbfCode.accum_scanDenseNodes. Proof. reflexivity. Qed.
+Lemma E_accum_dense_info : accum_view dinfo_accum = GenPbfCode.accum_scanDenseNodes_info. Proof. reflexivity. Qed.
+Lemma E_accum_ways : accum_view way_accum = GenPbfCode.accum_scanWays. Proof. reflexivity. Qed.
+Lemma E_accum_relations : accum_view rel_accum = GenPbfCode.accum_scanRelations. Proof. reflexivity. Qed.
+
+Lemma E_formulas : expected_formulas = GenPbfCode.formulas. Proof. reflexivity. Qed.
+
+Theorem decoder_loop_structure_matches_source :
+  (* the model's nil-ing / mandatory-column / use-if-found logic is the rule-driven one *)
+  (forall fi ic, nil_info fi ic = nil_info_t fi ic) /\ (forall s, dense_fixup s = dense_fixup_t s)
+  /\ (forall p v x, extract_pre p v x = extract_pre_t p v x)
+  /\ (forall f l prev index nodes, fill f l prev index nodes = fill_t ASint64 (kind_of 8 way_accum) f l prev index nodes)
+  (* and rules, accumulation kinds and formulas are those of the source *)
+  /\ dense_rules = GenPbfCode.found_scanDenseNodes /\ way_rules = GenPbfCode.found_scanWays
+  /\ rel_rules = GenPbfCode.found_scanRelations
+  /\ accum_view dense_accum = GenPbfCode.accum_scanDenseNodes
+  /\ accum_view dinfo_accum = GenPbfCode.accum_scanDenseNodes_info
+  /\ accum_view way_accum = GenPbfCode.accum_scanWays /\ accum_view rel_accum = GenPbfCode.accum_scanRelations
+  /\ expected_formulas = GenPbfCode.formulas.
+Proof.
+  repeat split;
+    first [ exact nil_info_table | exact dense_fixup_table | exact extract_pre_table | exact fill_table
+          | exact E_found_dense | exact E_found_ways | exact E_found_relations | exact E_accum_dense
+          | exact E_accum_dense_info | exact E_accum_ways | exact E_accum_relations | exact E_formulas ].
+Qed.
+
 (* string constants for files that do not open string_scope *)
 Definition sNode := "Node". Definition sWay := "Way". Definition sRelation := "Relation".
 Definition sPrimitiveBlock := "PrimitiveBlock".
